@@ -313,6 +313,19 @@ def _lt_established(p, pos, I, want_count, env):
         a, b = c[2], c[3]
         if op == 'Gt':
             a, b, op = b, a, 'Lt'
+        if op == 'Ge':
+            a, b, op = b, a, 'Le'
+        if op == 'Le':
+            # a + 1 <= b  is  a < b
+            a1 = a
+            while isinstance(a1, tuple) and a1[0] == 'cast':
+                a1 = a1[1]
+            if a1[0] == 'field' and a1[2] == '0' and a1[1][0] == 'binop' and a1[1][1] == 'AddWithOverflow':
+                a1 = ('binop', 'Add', a1[1][2], a1[1][3], a1[1][4])
+            if a1[0] == 'binop' and a1[1] == 'Add' and int_of(a1[3]) == 1:
+                a, op = a1[2], 'Lt'
+            elif a1[0] == 'binop' and a1[1] == 'Add' and int_of(a1[2]) == 1:
+                a, op = a1[3], 'Lt'
         if op != 'Lt':
             continue
         if a != I or _count_of(b, env) != want_count:
@@ -788,6 +801,22 @@ def d3_table(ctx):
             return lexer_boundaries(ctx, site)
         return False, 'not covered'
 
+    def offset_difference(ctx, site):
+        # input.len() - chars.as_str().len(): the character iterator always covers a suffix of `input` (it is created from it in
+        # Tokenizer::new and only ever advanced: R08.8), so the difference cannot underflow
+        fn = site['f']
+        c_ = sym(fn, site['term']['cond'])
+        if c_[0] == 'overflowflag' and c_[1] == 'Sub':
+            a_, b_ = str(c_[2]), str(c_[3])
+            if "'input'" in a_ and 'len' in a_ and 'as_str' in b_ and "'chars'" in b_ and 'len' in b_:
+                from framework import Report
+                from rules import c08
+                tmp = Report('tmp', 'quick')
+                c08.check_lexer_primitives(ctx, tmp, 'R08.8')
+                bad = [o for o in tmp.obs if not o['ok']]
+                return not bad, 'the character iterator covers a suffix of the input (R08.8)%s' % ((' - but: ' + bad[0]['fn']) if bad else '')
+        return False, 'not covered'
+
     def nth_guard(ctx, site):
         fn = site['f']
         a = sym(fn, site['term']['args'][0])
@@ -950,6 +979,7 @@ def d3_table(ctx):
         ('symbols::SymbolTable::leave_scope', None, 'R09.1', symbols_pairing),
         ('symbols::SymbolTable::resolve', 'index', 'R09.1', symbols_pairing),
         ('symbols::SymbolTable::reset_to_global', 'index_mut', 'R09.1', symbols_pairing),
+        ('lexer::Tokenizer*', 'Assert(Overflow)', 'local+R08.3', offset_difference),
         ('<lexer::Tokenizer*', 'index', 'local+R08.3', offset_slice),
         ('lexer::Tokenizer*', 'index', 'local+R08.3', offset_slice),
         ('symbols::*', 'unwrap', 'local+R09.1', nonempty_stack),
